@@ -31,6 +31,8 @@ def drain(gen_):
             evs.append(next(gen_))
     except StopIteration as stop:
         return evs, stop.value
+    except Exception as e:  # noqa: a decode that raises is still a function of its arguments: same error every time
+        return evs, ("raised", type(e).__name__, str(e))
 
 
 def history_failure(history, schedule_rnd=None, only=None):
@@ -50,6 +52,9 @@ def history_failure(history, schedule_rnd=None, only=None):
                 evs.append(next(g))
             except StopIteration as stop:
                 results[i] = (evs, stop.value)
+                live.pop(k)
+            except Exception as e:  # noqa
+                results[i] = (evs, ("raised", type(e).__name__, str(e)))
                 live.pop(k)
     for i in range(len(history)):
         for j in range(i + 1, len(history)):
